@@ -287,8 +287,8 @@ class OpSequences(LockStep):
     bounds = {"quick": "BED3/BED6/FASTQ/two-line FASTA, 3 records with symbolic bytes; ALL sequences of length <= 2 over 17 operations "
                        "{len, get field 0/1/2, 4 slices, symbolic mask, symbolic integer list, single index, swap registers, "
                        "concatenate([t,u]), replace int column 0/1 with symbolic values, tolist, write} for BED3 (length <= 1 for the other formats) "
-                       "plus a seeded sample of length 3-4 sequences; each followed by 'observe every field, write'",
-              "thorough": "all sequences of length <= 3 for BED3, <= 2 for the other formats, plus larger samples of length 4-6"}
+                       "plus a fixed pseudo-random sample of length 3-4 sequences; each followed by 'observe every field, write'",
+              "thorough": "all sequences of length <= 3 for BED3, <= 2 for the other formats, plus larger samples of length 4-6 drawn with VERIF_SEED"}
     job_timeout_s = 300
 
     def skeletons(self, tier, seed):
@@ -299,7 +299,8 @@ class OpSequences(LockStep):
                 full, mx, sample = (2, 4, 30) if name == "bed3" else ((1, 3, 12) if name != "sam" else (1, 3, 6))
             else:
                 full, mx, sample = (3, 6, 400) if name == "bed3" else (2, 5, 150)
-            progs = gen_programs(ops, mx, sample, seed, full)
+            # the quick tier is the same set on every run (a fixed sample); VERIF_SEED moves the sample of the thorough tier
+            progs = gen_programs(ops, mx, sample, seed if tier == "thorough" else 0, full)
             if not is_seq(f):
                 progs += [p for p in DIRECTED if p not in progs]
             else:
